@@ -253,8 +253,8 @@ func c10Families(tier string) []explore.Family {
 		if nvals > 3 && tier != "thorough" {
 			continue
 		}
-		if nvals > 4 {
-			continue
+		if nvals > 3 {
+			continue // |U|^(values+1) x up to 5 renders each: 4 values would exceed the thorough budget
 		}
 		// the universe extended with other numeric kinds is used for shapes with <=2 values;
 		// larger shapes use the reduced universe only (the cost is |U|^(values+1))
@@ -463,7 +463,7 @@ func init() {
 		Families: c10Families,
 		Bound: func(tier string) string {
 			if tier == "thorough" {
-				return "if chains <=6 branches; case <=3 clauses (<=4 values); duality over the whole pair universe"
+				return "if chains <=6 branches; case <=3 clauses (<=3 values); duality over the whole pair universe"
 			}
 			return "if chains <=4 branches; case <=2 clauses (<=3 values); duality over the whole pair universe"
 		},
